@@ -11,13 +11,19 @@ ATTRS = ["alpha", "beta", "gamma"]
 def history(draw):
   nattr = draw(st.integers(1, 3))
   base = draw(st.sampled_from(["ThreadSafeAttributes", "ActiveObjectWithAttributes", "two_classes"]))
-  n = draw(st.integers(2, 12))
-  ops = []
-  created = 0
+  n = draw(st.integers(2, 14))
+  ops = [["new", 0], ["new", draw(st.integers(0, 1))]]
+  created = 2
   for _ in range(n):
-    k = draw(st.sampled_from(["new", "assign", "assign", "read", "read", "augment", "discard"]))
-    if k == "new" or created == 0:
+    k = draw(st.sampled_from(["new", "assign", "assign", "read", "read", "read", "augment", "augment_from",
+                              "discard", "subclass"]))
+    if k == "new":
       ops.append(["new", draw(st.integers(0, 1))])
+      created += 1
+    elif k == "subclass":
+      # a class defined late - after instances of its parent were assigned - inheriting or re-listing
+      # the attribute names; its new instance starts from 0 like any other
+      ops.append(["subclass", draw(st.integers(0, 1)), draw(st.booleans())])
       created += 1
     else:
       inst = draw(st.integers(0, created - 1))
@@ -29,6 +35,8 @@ def history(draw):
           created += 1
       elif k == "read":
         ops.append(["read", inst, attr])
+      elif k == "augment_from":
+        ops.append([k, inst, attr, draw(st.integers(0, created - 1))])
       else:
         ops.append([k, inst, attr, draw(st.integers(-5, 5))])
   return {"nattr": nattr, "base": base, "ops": ops,
@@ -42,12 +50,15 @@ class C29(Prop):
   rule = ("Hypothesis-generated histories: a freshly defined class (subclass of "
           "ThreadSafeAttributes or ActiveObjectWithAttributes, or two sibling classes with the same "
           "attribute names) with 1-3 names in _attributes, then 2-12 operations from: create an "
-          "instance, assign an attribute on an instance, augment (+=) it, read it, discard an instance "
+          "instance, assign an attribute on an instance, augment (+=) it by a number or by the same attribute "
+          "of another instance (a.x += b.x), read it, define a subclass late (inheriting or re-listing the names) and "
+          "create its first instance, discard an instance "
           "(dropped and garbage collected, then a new one is created - possibly at the same address); "
           "in a quarter of the cases the classes make their instances falsy (__len__ / __bool__). Oracle: a dict "
           "keyed by (instance, attribute) that defaults to 0: every read returns the model value of "
-          "THAT instance. Non-trivial: >=2 instances exist and an assignment to one happens between "
-          "two reads of another; distinct = distinct case digests.")
+          "THAT instance, and after every assignment every attribute of every live instance is read "
+          "back and compared. Non-trivial: an assignment to one instance is made while another live "
+          "instance holds a different non-zero value of the same attribute; distinct = distinct case digests.")
   assumptions = ["single-threaded; the statements live in this real source file (miros inspects the "
                  "caller's source line)"]
 
@@ -70,7 +81,7 @@ class C29(Prop):
     klasses = [k0, k1]
     insts, model = [], {}
     o = None
-    last_read, interleaved = {}, False
+    interleaved = False
     for idx, op in enumerate(case["ops"]):
       where = "op %d %s" % (idx, op)
       try:
@@ -85,6 +96,19 @@ class C29(Prop):
               fresh = None
               return self.fail(stats, case, True, "%s: a new instance reads %s == %r before any assignment "
                                "(instances so far: %d)" % (where, nm, v, len(insts)))
+          fresh = None
+          continue
+        if op[0] == "subclass":
+          parent = klasses[op[1]]
+          late = type("VfLate%d" % idx, (parent,), {"_attributes": list(names)} if op[2] else {})
+          fresh = late()
+          insts.append(fresh)
+          for nm in names:
+            v = getattr(fresh, nm)
+            if v != 0:
+              fresh = None
+              return self.fail(stats, case, True, "%s: a new instance of a class defined after its parent's "
+                               "instances were assigned reads %s == %r before any assignment" % (where, nm, v))
           fresh = None
           continue
         if op[0] == "discard":
@@ -120,19 +144,44 @@ class C29(Prop):
           else:
             o.gamma += op[3]
           model[key] = model.get(key, 0) + op[3]
-        if op[0] in ("assign", "augment"):
-          for k2 in last_read:
-            if k2[0] != op[1]:
-              last_read[k2] = "touched"
+        elif op[0] == "augment_from":
+          # the right-hand side reads the same attribute of (possibly) another instance, on one line
+          o2 = insts[op[3]]
+          if o2 is None:
+            continue
+          if name == "alpha":
+            o.alpha += o2.alpha
+          elif name == "beta":
+            o.beta += o2.beta
+          else:
+            o.gamma += o2.gamma
+          o2 = None
+          model[key] = model.get(key, 0) + model.get((op[3], name), 0)
+        if op[0] in ("assign", "augment", "augment_from"):
+          # discriminating: another live instance holds a different value of this attribute
+          for j, other in enumerate(insts):
+            if other is not None and j != op[1] and model.get((j, name), 0) != model.get(key, 0) \
+               and model.get((j, name), 0) != 0:
+              interleaved = True
+          other = None
         if op[0] == "read":
           got = getattr(o, name)
-          if last_read.get(key) == "touched":
-            interleaved = True
-          last_read[key] = "read"
           want = model.get(key, 0)
           if got != want:
             return self.fail(stats, case, interleaved, "%s: instance %d reads %s == %r, expected %r "
                              "(instances: %d)" % (where, op[1], name, got, want, len(insts)))
+        else:
+          # after every change, EVERY attribute of EVERY live instance still reads its own value
+          o = None
+          for j in range(len(insts)):
+            if insts[j] is None:
+              continue
+            for nm in names:
+              got = getattr(insts[j], nm)
+              want = model.get((j, nm), 0)
+              if got != want:
+                return self.fail(stats, case, interleaved, "%s: afterwards instance %d reads %s == %r, expected %r "
+                                 "(instances: %d)" % (where, j, nm, got, want, len(insts)))
       except PropertyViolation:
         raise
       except Exception as e:
